@@ -20,4 +20,8 @@ git -C "$d/repo" checkout -q -- .
 [ -f "$d/repo/Cargo.lock" ] || cp /repo/Cargo.lock "$d/repo/Cargo.lock"
 if [ "$patch" != "-" ]; then git -C "$d/repo" apply "$patch" 2>/dev/null || ( cd "$d/repo" && patch -s -p1 -F3 < "$patch" ) || { echo "patch does not apply"; exit 2; }; fi
 cd /verif
-for c in "$@"; do GV_SCRATCH="$d" ./check "$c" --tier "${TIER:-quick}" 2>&1 | tail -4; done
+for c in "$@"; do
+  out=$(GV_SCRATCH="$d" ./check "$c" --tier "${TIER:-quick}" 2>&1)
+  echo "$out" | tail -4
+  echo "SUMMARY $c violations=$(echo "$out" | grep -c '^VIOLATION') with_input=$(echo "$out" | grep '^VIOLATION' | grep -vc 'no-failing-input-found') known=$(echo "$out" | grep -c '^KNOWN-FINDING') $(echo "$out" | grep -E "^$c (ok|FAIL)" | cut -d' ' -f2)"
+done
